@@ -185,6 +185,9 @@ type sim struct {
 	fMask          uint32 // sanitized: power(fMask) < 1/3 of every set's total
 	fStart         [2]uint64
 	fSigned        map[string]string
+	signed         map[string]map[string]bool
+	futureStored   map[string]bool // rounds for which votes were stored while the round was still in the future
+	realCertificates bool // replays carry certificates consistent with what validators signed before
 	incStartGS     int
 	incStartSM     int
 	recorder       func(d delivery) // C10: record every message delivered (reference run)
